@@ -130,15 +130,31 @@ def rule_fq2_sqrt(fx, rep):
     # legendre = norm().legendre();  norm = c0^2 + c1^2
     lp = fx.impl_method('ff::SqrtField', FQ2, 'legendre')
     lb = fx.body(lp) if lp else None
-    ok = False
+    ok, why = False, 'legendre not found'
     if lb is not None:
         rep.fn(lp)
-        from wire import Origin, strip
-        o = Origin(lb)
-        t = o.local(0)
-        ok = (t[0] == 'call' and t[1].get('name') == 'legendre' and t[1].get('self_ty') == FQ
-              and strip(t[2][0])[0] == 'call' and (strip(t[2][0])[1].get('res') or '').endswith('Fq2::norm') and strip(strip(t[2][0])[2][0]) == ('param', 1))
-    rep.check(ok, 'WIRE', 'Fq2::legendre', 'legendre(a) = legendre_Fq(norm(a))', 'legendre is not norm().legendre()')
+        import inline as INL
+
+        def trl(I, fr, t, c, pth):
+            if c.get('name') == 'legendre' and c.get('self_ty') == FQ and len(t['args']) == 1:
+                fr.storev(t['dest'], ('legendre_fq', fr.deref_operand(t['args'][0])))
+                return True
+            return False
+        IL = exp.Interp(fx, 'mul', extra_transfer=trl, inline=lambda q: INL.is_private_helper(fx, q) or q.endswith('Fq2::norm'))
+        try:
+            resl = IL.run(lp, [('byref', Agg([Lin.atom('c0'), Lin.atom('c1')]))])
+            rep.sites(IL.call_sites)
+            resl = [r_ for r_ in resl if not (isinstance(r_[1], tuple) and r_[1] and r_[1][0] == 'diverges')]
+            v = resl[0][1] if len(resl) == 1 else None
+            if isinstance(v, tuple) and v and v[0] == 'legendre_fq' and isinstance(v[1], Lin) and len(v[1].t) == 1 and list(v[1].t.values()) == [1]:
+                site = [s_ for s_ in IL.opaque_sites if s_[0] in v[1].t]
+                ok = bool(site) and site[0][1] in ('add_assign(Lin(c1:2), Lin(c0:2))', 'add_assign(Lin(c0:2), Lin(c1:2))')
+                why = 'the quadratic character is taken of %s' % (site[0][1] if site else v[1],)
+            else:
+                why = 'returns %r' % ([r_[1] for r_ in resl],)
+        except (exp.NotDerivable, exp.Budget) as e:
+            why = 'not derivable: %s' % e
+    rep.check(ok, 'WIRE', 'Fq2::legendre', 'legendre(a) = legendre_Fq(c0^2 + c1^2) (by interpretation)', why, fx.fn(lp)['span'] if lp else None, construct=lp)
     np_ = 'bls12_381::fq2::Fq2::norm'
     if fx.body(np_) is not None:
         rep.fn(np_)
